@@ -115,3 +115,36 @@ Theorem C02_fuel_monotone : forall defs f f' dot s ns,
   f <= f' -> fin (exec_nodes defs f dot s ns) -> exec_nodes defs f' dot s ns = exec_nodes defs f dot s ns.
 Proof. exact exec_nodes_mono. Qed.
 Print Assumptions C02_fuel_monotone.
+
+(* ---- the program-level theorems for the scalar, each-free control fragment -----------------------------------------
+   Proofs: Proofs/C02SimProofs.v (simulation, parameterised by what is assumed about expressions),
+   Proofs/C01EvalProofs.v (those assumptions for the scalar expression fragment [goodS funcs names]),
+   Proofs/C02InstProofs.v (instantiation, initial states, whole renders).
+   [lower] (Pug/Lower.v): the tree-level lowering of text, tags without attributes, escaped buffered code,
+   var / assignment / ++, if / else-if / else, while; the judge ties it to parse_program (compile nodes) per case.
+   [R names repu jv_ok s g]: the engine state s and S's state g are live, print the same, and every name holds
+   a value representing S's (numbers in range). *)
+From PV Require Import Js.Ast Pug.Ast Pug.Lower Spec.Sem Proofs.C01EvalProofs Proofs.C02SimProofs Proofs.C02InstProofs
+  Run.Judge_Core.
+
+(* whatever S prescribes for a node list of the fragment without raising a deviation flag, the executor does on
+   the lowered tree: same output and related variables on a normal end, the execution error exactly when S
+   prescribes the while-bound error — for every fuel of S, from every pair of related states *)
+Theorem C02_control_simulation : forall funcs names globals fs,
+  P_nodes funcs (goodS funcs names) names globals repu jv_ok fs /\
+  P_node funcs (goodS funcs names) names globals repu jv_ok fs.
+Proof. exact sim_scalar. Qed.
+Print Assumptions C02_control_simulation.
+
+(* whole renders: data = a map of scalars (numbers in range, keys not starting with an upper-case letter) *)
+Theorem C02_program_scalar : forall funcs names nodes t d,
+  lower_nodes funcs (goodS funcs names) nodes = Some t -> data_ok names d = true ->
+  match sem_run nodes (sd_top d) with
+  | SOut o [] => run_program {| p_main := t; p_defs := [] |} d = OOk o \/
+                 run_program {| p_main := t; p_defs := [] |} d = OFuel
+  | SError [] => run_program {| p_main := t; p_defs := [] |} d = OPanic \/
+                 run_program {| p_main := t; p_defs := [] |} d = OFuel
+  | _ => True
+  end.
+Proof. exact program_scalar. Qed.
+Print Assumptions C02_program_scalar.
